@@ -113,10 +113,11 @@ def run(chk):
     proved = all(v == 'ok' for v in st.values()) and chk.prove(
         ['theories/Gen/C06Kernels.v', 'theories/C06/Model.v', 'theories/C06/Proofs.v', 'theories/C06/Run.v'],
         'theories/C06/Properties.v')
+    proved = chk.prove(['theories/C06/OpTable.v'], 'theories/C06/OpTableProperties.v') and proved
     model_ok = True
     if not proved:
         try:
-            core.coq_make(['theories/Gen/C06Kernels.v', 'theories/C06/Model.v', 'theories/C06/Run.v'])
+            core.coq_make(['theories/Gen/C06Kernels.v', 'theories/C06/Model.v', 'theories/C06/Run.v', 'theories/C06/OpTable.v'])
         except core.CoqError as e:
             chk.notes.append('model does not build: ' + str(e))
             model_ok = False
@@ -275,6 +276,57 @@ def run(chk):
             neg = r[0] == 'val' and r[1] == 0 and math.copysign(1, r[1]) < 0
             if want_neg and not neg:
                 chk.violation('impl-vs-spec', {'expr': UN[f], 'a': repr(a)}, {'impl': repr(r), 'spec': '-0.0'})
+    # ---- the arithmetic operator mapping over operand types (C06/OpTable.v): defined / XPTY0004 and the result type
+    from decimal import Decimal as _D
+    from elementpath.datatypes import (Float as _F, Date as _Date, DateTime as _DT, Time as _T, YearMonthDuration as _YM,
+                                       DayTimeDuration as _DTD)
+    from elementpath.xpath31 import XPath31Parser as _P31
+    from elementpath import ElementPathError
+    OT = ['int', 'dec', 'dbl', 'flt', 'untyped', 'str', 'anyURI', 'bool', 'qname', 'date', 'dateTime', 'time', 'gYear', 'duration', 'ymdur',
+          'dtdur', 'hex', 'b64']
+    OREP = {'int': ["7", "2"], 'dec': ["1.5", "2.5"], 'dbl': ["1e0", "2.5e0"], 'flt': ["xs:float('1')", "xs:float('2.5')"],
+            'untyped': ["xs:untypedAtomic('2')"], 'str': ["'a'", "'2'"], 'anyURI': ["xs:anyURI('a')"], 'bool': ["true()"],
+            'qname': ["xs:QName('a')"], 'date': ["xs:date('2000-01-01')", "xs:date('2001-06-01')"],
+            'dateTime': ["xs:dateTime('2000-01-01T00:00:00')", "xs:dateTime('2000-01-01T12:00:00')"],
+            'time': ["xs:time('10:00:00')", "xs:time('11:00:00')"], 'gYear': ["xs:gYear('2000')"], 'duration': ["xs:duration('P1Y1D')"],
+            'ymdur': ["xs:yearMonthDuration('P1Y')", "xs:yearMonthDuration('P2M')"],
+            'dtdur': ["xs:dayTimeDuration('P1D')", "xs:dayTimeDuration('PT2H')"], 'hex': ["xs:hexBinary('0A')"], 'b64': ["xs:base64Binary('Cg==')"]}
+    OOPS = ['+', '-', '*', 'div', 'idiv', 'mod']
+
+    def type_index(v):
+        if isinstance(v, bool):
+            return OT.index('bool')
+        for cls, name in ((int, 'int'), (_D, 'dec'), (_F, 'flt'), (float, 'dbl'), (_YM, 'ymdur'), (_DTD, 'dtdur'), (_DT, 'dateTime'),
+                          (_Date, 'date'), (_T, 'time')):
+            if isinstance(v, cls):
+                return OT.index(name)
+        return -2
+    ocells = [(o, a, b) for o in range(6) for a in range(len(OT)) for b in range(len(OT))]
+    omodel = core.run_coq_cases('C06', 'From EP Require Import C06.OpTable.', [f'run_op {o} {a} {b}' for o, a, b in ocells],
+                                chunk=700, tag='optable') if model_ok else [None] * len(ocells)
+    for (o, a, b), mo in zip(ocells, omodel):
+        got = set()
+        for va in OREP[OT[a]]:
+            for vb in OREP[OT[b]]:
+                chk.evaluations += 1
+                expr = f'{va} {OOPS[o]} {vb}'
+                try:
+                    got.add(type_index(_P31().parse(expr).evaluate()))
+                except ElementPathError as e:
+                    code = (e.code or '').split(':')[-1]
+                    got.add(-1 if code == 'XPTY0004' else 'error ' + code)
+                except Exception as e:
+                    chk.violation('foreign-exception', {'expr': expr}, repr(e)[:200])
+        chk.count('optable:' + OOPS[o])
+        if mo is None:
+            continue
+        desc = {'op': OOPS[o], 'types': [OT[a], OT[b]], 'impl result types': sorted(map(str, got))}
+        if got != {mo}:
+            chk.corr_fail.append((desc, sorted(map(str, got)), mo))
+            chk.violation('impl-vs-spec', desc, {'impl': sorted(OT[g] if isinstance(g, int) and g >= 0 else str(g) for g in got),
+                                                 'spec': OT[mo] if mo >= 0 else 'XPTY0004'})
+        if mo >= 0:
+            chk.nontrivial.add(repr(('optable', o, a, b)))
     chk.rule = ('grid of boundary values of the four numeric types (type pairs x idiv/mod/div-by-zero/+,-,* on exact types) '
                 'plus seeded random operands, and rounding functions on half-way values x precisions; non-trivial = '
                 'finite operands with a non-zero divisor (or a zero divisor for div), distinct by (op, operands)')
